@@ -3402,6 +3402,8 @@ def main(repo, outdir):
     guard("PlotsGen.v", lambda: py2coq_plots.gen_plots(repo))
     from py2coq_tlp import gen_tlp                # generator for _get_tlp_context / _context_reduction / solve_for_variables: translator/py2coq_tlp.py
     guard("TlpGen.v", lambda: gen_tlp(repo))
+    import py2coq_grammar  # generator for the STRUCTURE of the pyparsing grammar (C09): translator/py2coq_grammar.py
+    guard("GrammarGen.v", lambda: py2coq_grammar.gen_grammar(repo))
     changed = []
     for name, txt in res.items():
         p = os.path.join(outdir, name)
